@@ -255,9 +255,18 @@ func (h *historyPart) OnSent(w *World, st *StepRec, sr sentRec, exp Exp) *Violat
 			continue
 		}
 		p := pos(b.id)
-		if p < 0 || !inTime(ents[p]) || (hasTopic && ents[p].topic != topicFilter) {
-			anyReply("publication bound not in the (filtered) store")
+		if p < 0 {
+			anyReply("publication bound not in the store")
 			return nil
+		}
+		if !inTime(ents[p]) {
+			anyReply("publication bound outside the time window")
+			return nil
+		}
+		if hasTopic && ents[p].topic != topicFilter {
+			// the bounding publication itself is ruled out by the topic filter: it still
+			// bounds the window (conjunction of independent predicates)
+			w.st.Label("history_query_bound_on_other_topic")
 		}
 		switch b.kind {
 		case "from":
@@ -269,6 +278,9 @@ func (h *historyPart) OnSent(w *World, st *StepRec, sr sentRec, exp Exp) *Violat
 		case "until":
 			hi = min(hi, p+1)
 		}
+	}
+	if hasFromP || hasAfterP || hasBeforeP || hasUntilP {
+		w.st.Label("history_query_publication_bound_judged")
 	}
 	if (hasFromP && hasAfterP) || (hasBeforeP && hasUntilP) {
 		anyReply("two publication bounds on the same side")
